@@ -6,11 +6,12 @@ cd /verif
 export GOFLAGS=-mod=mod GOPROXY=off
 export GOCACHE=${GOCACHE:-/verif/cache/gocache}
 mkdir -p /verif/bin /verif/out /verif/cache
-BIN=/verif/bin/vcheck-$$; trap 'rm -f $BIN' EXIT
+BIN=/verif/bin/vcheck-$$; trap 'rm -f $BIN /verif/out/build.$$.log' EXIT
 ID=${1:?id}; TIER=${2:-${VERIF_TIER:-quick}}
-if ! go build -o $BIN ./cmd/vcheck 2>/verif/out/build.log; then
+python3 /verif/tools/genall.py
+if ! go build -o $BIN ./cmd/vcheck 2>/verif/out/build.$$.log; then
   # a tree that does not compile is not a property violation; report as harness error
-  cat /verif/out/build.log >&2
+  cat /verif/out/build.$$.log >&2; rm -f /verif/out/build.$$.log
   echo "HARNESS-ERROR build failed" >&2
   exit 2
 fi
